@@ -278,8 +278,12 @@ impl Acc {
         }
         self.distinct_orders.merge(o.distinct_orders);
         self.bad.extend(o.bad);
-        if self.samples.len() < 6 {
-            self.samples.extend(o.samples);
+        for smp in o.samples {
+            // keep at most 3 acyclic and 3 cyclic examples, preferring the larger node counts seen later
+            let is_order = smp["result"].is_object();
+            if self.samples.iter().filter(|s| s["result"].is_object() == is_order).count() < 3 {
+                self.samples.push(smp);
+            }
         }
     }
     fn run(&mut self, c: &Case, member: &forc_pkg::source::Pinned) {
@@ -294,14 +298,18 @@ impl Acc {
                     *self.dags_all_library_no_hole.entry(c.n).or_default() += 1;
                 }
                 self.distinct_orders.add(&(c.n, &o));
-                if self.samples.len() < 2 && c.edges.len() >= 3 {
+                if c.n >= 3 && c.edges.len() >= 3 && !self.samples.iter().any(|s| s["result"].is_object()) {
                     self.samples
                         .push(json!({"case": c.to_json(), "result": {"order": o}}));
                 }
             }
             Verdict::OkErr => {
                 self.ok_errs += 1;
-                if self.samples.len() < 2 && c.edges.len() == 3 {
+                if c.n >= 3
+                    && c.edges.len() == 3
+                    && c.edges.iter().all(|(a, b, _)| a != b)
+                    && !self.samples.iter().any(|s| s["result"].is_string())
+                {
                     self.samples
                         .push(json!({"case": c.to_json(), "result": "Err(dependency cycle detected)"}));
                 }
